@@ -494,6 +494,158 @@ def typeDefinitionWith (k : Knot) (bt : P Ty) : P Ty :=
         pmap (many0 (seq (barOp '|') (intersectionType bt))) fun rest =>
           if rest.isEmpty then first else Ty.union (first :: rest)))
 
+/-! ### The left-factored grammar (candidate repair of C18-F1, notes/C18-fixes/01)
+
+`base_type`, `function_input_type` and `function_output_type` hand every `(`-headed type to ONE
+function that reads the field list once and decides afterwards (partial type / parenthesised process
+form / grouping). `Theorems/C18Types.lean: partial_or_group_factored_eq` proves that this grammar and
+the one above are the same function of the input. The Rust function shares the one parse between
+the three decisions; the model recomputes nothing either: `parenType` is a pure function of the
+results of `parenList` and `parenProcessType`. -/
+
+/-- `separated_list0(sep, p)` that also reports where the first element ended -/
+def sepList0Pos {α β : Type} (sep : P β) (p : P α) : P (List α × Option Str) := fun i =>
+  match p i with
+  | .ok a r =>
+    match sepLoop sep p (r.length + 1) r with
+    | .ok as r' => .ok (a :: as, some r) r'
+    | .err e c => .err e c
+    | .out => .out
+  | .err _ _ => .ok ([], none) i
+  | .out => .out
+
+/-- run `f` with the current input as an argument (`let start = input;`) -/
+@[inline] def withInput {α : Type} (f : Str → P α) : P α := fun i => f i i
+
+/-- `named_partial_type` (the first arm of `partial_type`) -/
+def namedPartialType (k : Knot) : P Ty :=
+  bind tupleName fun n => pmap (fieldsIn '(' ')' k) fun fs => Ty.tuple (some n) fs true
+
+/-- `paren_process_type` (the first arm of `process_type`) -/
+def parenProcessType (k : Knot) : P Ty :=
+  delimited (pchar '(')
+    (alt
+      (pmap (seq (seq (pchar '@') (seq ws0 (seq (ptag ['-', '>']) ws1))) k.bt)
+        fun r => Ty.proc none (some r))
+      (seq (pchar '@')
+        (bind k.bt fun a => seq arrow (pmap k.bt fun r => Ty.proc (some a) (some r)))))
+    (pchar ')')
+
+/-- `at_process_type` (the second arm of `process_type`) -/
+def atProcessType (k : Knot) : P Ty := seq (pchar '@') (pmap (opt k.bt) fun a => Ty.proc a none)
+
+/-- what `paren_type` remembers of its one parse: the fields, where the first field ended, the
+    input behind `(`, the input behind `(` + whitespace and comments -/
+structure ParenList where
+  fields : List Field
+  firstEnd : Option Str
+  afterOpen : Str
+  content : Str
+
+/-- `(` `wsc` and the field list of `paren_type` -/
+def parenList (k : Knot) : P ParenList :=
+  seq (pchar '(') (withInput fun afterOpen =>
+    seq wsc (withInput fun content =>
+      pmap (sepList0Pos commaWsc (fieldType k)) fun r => ⟨r.1, r.2, afterOpen, content⟩))
+
+/-- `preceded(opt(pair(wsc, char(','))), pair(wsc, char(')')))` -/
+def closeParen : P Unit := seq (opt (seq wsc (pchar ','))) (seq wsc (pchar ')'))
+
+def isPartialFields (fs : List Field) : Bool := fs.isEmpty || fs.any Field.isNamed
+
+def headIs (c : Char) : Str → Bool
+  | d :: _ => d = c
+  | [] => false
+
+/-- the grouping decision of `paren_type`: a single positional field, separated from the
+    parentheses by whitespace only (or by comments in front of a leading `|`), no trailing comma -/
+def groupDecision (i : Str) (l : Option ParenList) : Res Ty :=
+  match l with
+  | some ⟨[Field.field none t], some firstEnd, afterOpen, content⟩ =>
+    if (afterOpen.dropWhile isMultispace).length = content.length || headIs '|' content then
+      match seq ws0 (pchar ')') firstEnd with
+      | .ok _ rest => .ok t rest
+      | _ => .err i .verify
+    else .err i .verify
+  | _ => .err i .verify
+
+/-- the decisions of `paren_type` behind the partial-type test, in the order of the alternatives of
+    the caller: `base_type` tries the process form before the grouping (`groupFirst = false`),
+    `function_input_type` / `function_output_type` the grouping first -/
+def parenAfterPartial (groupFirst : Bool) (i : Str) (l : Option ParenList) (q : Res Ty) : Res Ty :=
+  if groupFirst then
+    match groupDecision i l with
+    | .ok t r => .ok t r
+    | _ =>
+      match q with
+      | .ok t r => .ok t r
+      | .out => .out
+      | .err _ _ => .err i .verify
+  else
+    match q with
+    | .ok t r => .ok t r
+    | .out => .out
+    | .err _ _ => groupDecision i l
+
+/-- `paren_type(input, group_before_process)` -/
+def parenType (groupFirst : Bool) (k : Knot) : P Ty := fun i =>
+  match parenList k i with
+  | .out => .out
+  | .err _ _ => parenAfterPartial groupFirst i none (parenProcessType k i)
+  | .ok l position =>
+    match closeParen position with
+    | .ok _ rest =>
+      if isPartialFields l.fields then .ok (.tuple none l.fields true) rest
+      else parenAfterPartial groupFirst i (some l) (parenProcessType k i)
+    | _ => parenAfterPartial groupFirst i (some l) (parenProcessType k i)
+
+/-- the patched `function_input_type` / `function_output_type` -/
+def functionIoTypeF (k : Knot) : P Ty :=
+  alt (namedPartialType k)
+  (alt (parenType true k)
+  (alt (tupleType k)
+  (alt resourceType
+  (alt typeCycle
+  (alt (atProcessType k)
+  (alt (moduleType k)
+  (alt (typeIdentifier k)
+       (selfDefaultType k))))))))
+
+def functionTypeF (k : Knot) : P Ty :=
+  seq (pchar '#')
+    (bind (functionIoTypeF k) fun a => seq arrow (pmap (functionIoTypeF k) fun b => Ty.func a b))
+
+/-- the patched `base_type` -/
+def baseTypeF (k : Knot) : P Ty :=
+  alt (tupleType k)
+  (alt (namedPartialType k)
+  (alt (parenType false k)
+  (alt resourceType
+  (alt typeCycle
+  (alt (atProcessType k)
+  (alt typeParameter
+  (alt (moduleType k)
+  (alt (typeIdentifier k)
+       (selfDefaultType k)))))))))
+
+def typeDefinitionF (k : Knot) (bt : P Ty) : P Ty :=
+  alt (functionTypeF k)
+    (seq (opt (barOp '|'))
+      (bind (intersectionType bt) fun first =>
+        pmap (many0 (seq (barOp '|') (intersectionType bt))) fun rest =>
+          if rest.isEmpty then first else Ty.union (first :: rest)))
+
+def Knot.stepF (k : Knot) : Knot :=
+  { bt := baseTypeF k, td := typeDefinitionF k (baseTypeF k) }
+
+/-- the patched grammar with a given fuel -/
+def knotF : Nat → Knot
+  | 0 => { td := fun _ => .out, bt := fun _ => .out }
+  | n + 1 => (knotF n).stepF
+
+/-- the patched `type_definition(input)` -/
+def parseTypeF : P Ty := fun i => (knotF (i.length + 1)).td i
+
 /-- One unfolding of the grammar: the new `base_type` calls the old knot only after consuming a
     character; the new `type_definition` uses the new `base_type` at the same position. -/
 def Knot.step (k : Knot) : Knot :=
